@@ -21,7 +21,8 @@ macro_rules! cont {
         }
     };
 }
-cont!(q_h07cont__mvex_24b, MvexBox, 24, 6);
+cont!(q_h07cont__mvex_16b, MvexBox, 16, 5);
+cont!(t_h07cont__mvex_24b, MvexBox, 24, 6);
 cont!(q_h07cont__edts_24b, EdtsBox, 24, 6); // no loop in edts: one child, passes
 cont!(t_h07cont__mvex_32b, MvexBox, 32, 7);
 cont!(x_h07cont__udta_24b, UdtaBox, 24, 6); // does not finish: the meta child decoder runs inside
